@@ -5,7 +5,9 @@ What is a theorem here: (1) replay determinism of the model — running a histor
 second from the state the first ended in, gives exactly the outputs and state of the uninterrupted
 run (`C13_replay`), and Commit, the only call that may trigger a save, does not look at the clock or
 the file (`C13_commit_pure`); (2) crash-atomicity of the save protocol on a file-system model
-(`C13_atomic_save`), with the protocol's step order pinned to the source (`C13_persist_order_pinned`).
+(`C13_atomic_save`), for one save and for any history of saves cut short anywhere, each finding anything at all
+at the temp path (`C13_saves_after_crashes`), with the protocol's step order pinned to the source
+(`C13_persist_order_pinned`).
 What is checked, not proved: that gob decoding of a gob encoding gives back the same application
 state (a library fact) — the driver saves, loads and compares at every height of every history.
 -/
@@ -89,6 +91,53 @@ theorem C13_atomic_save (fs : Fs) (tmp final : String) (hne : tmp ≠ final) (ol
     generalize step (step (step fs (.create tmp)) (.write tmp enc)) (.sync tmp) = s3 at hs ⊢
     simp only [step, hs]
     rw [Fs.set_other _ _ _ _ hne', Fs.set_same]
+
+/-- one save attempt of a node's life: what is found at the temp path when it begins (left by an earlier crash,
+    cut short by the reboot, removed by an operator — anything), the encoding to save, and how far the save gets
+    (`i` complete steps and `j` bytes of the write; `4 ≤ i` is a save that completes) -/
+structure Attempt where
+  leftover : Option File
+  enc : Bytes
+  i : Nat
+  j : Nat
+
+def attempt (tmp final : String) (fs : Fs) (a : Attempt) : Fs :=
+  crashState (fs.set tmp a.leftover) tmp final a.enc a.i a.j
+
+/-- the encoding of the last attempt that reached its rename -/
+def lastSaved (old : Bytes) (as : List Attempt) : Bytes :=
+  as.foldl (fun cur a => if 4 ≤ a.i then a.enc else cur) old
+
+/-- **Any history of saves and crashes.**  However many saves a node attempts, wherever each of them is cut
+    short, and whatever each of them finds at the temp path, the state file holds — complete and durable — the
+    encoding of the last save that reached its rename (the previous file if none did).  In particular a temp file
+    left by a crashed save, of any length, never reaches the state file of a later save. -/
+theorem C13_saves_after_crashes (tmp final : String) (hne : tmp ≠ final) (as : List Attempt) (fs : Fs) (old : Bytes)
+    (hold : fs final = some { data := old, durable := old.length }) :
+    (as.foldl (attempt tmp final) fs) final =
+      some { data := lastSaved old as, durable := (lastSaved old as).length } := by
+  have hne' : final ≠ tmp := fun h => hne h.symm
+  induction as generalizing fs old with
+  | nil => simpa [lastSaved] using hold
+  | cons a rest ih =>
+    simp only [List.foldl_cons, lastSaved]
+    by_cases h4 : 4 ≤ a.i
+    · rw [if_pos h4]
+      exact ih _ _ (by unfold attempt; exact crash_final_after _ tmp final hne a.enc a.i a.j h4)
+    · rw [if_neg h4]
+      refine ih _ _ ?_
+      unfold attempt
+      rw [crash_final_before _ tmp final hne a.enc a.i a.j (by omega), Fs.set_other _ _ _ _ hne']
+      exact hold
+
+/-- non-vacuity: a save that crashed after its sync (a long temp file stays behind), then a complete save of a
+    shorter encoding: the state file holds exactly the shorter encoding -/
+example :
+    let fs : Fs := fun q => if q = "state.gob" then some { data := [1], durable := 1 } else none
+    (([{ leftover := none, enc := [9, 9, 9, 9, 9], i := 3, j := 0 },
+       { leftover := some { data := [9, 9, 9, 9, 9], durable := 5 }, enc := [2, 3], i := 4, j := 0 }] : List Attempt).foldl
+      (attempt "state.gob.tmp" "state.gob") fs) "state.gob" = some { data := [2, 3], durable := 2 } := by
+  decide
 
 /-- the steps `PersistToDisk` issues, in source order, as extracted from /repo on this run -/
 theorem C13_persist_order_pinned :
